@@ -214,7 +214,8 @@ class Engine:
         self.tokens = []
         self.observer_dead = None
         self.known_files = {}
-        self.foreign = {}  # f -> dict(path, w, ti, child, dir)
+        self.foreign = {}  # (f, ti) -> holding
+        self.foreign_jobs = {}  # f -> dict(dir, child, alive, scheduler_dies, holdings)
         self.children = []
         self.step_no = 0
         self.waiter = None
@@ -337,7 +338,7 @@ class Engine:
         for m in self.jobs.values():
             if m.alive:
                 own += sum(w for t, w in m.spec["toks"] if t == ti)
-        foreign = sum(f["w"] for f in self.foreign.values() if f["ti"] == ti and f["alive"])
+        foreign = sum(f["w"] for f in self.foreign.values() if f["ti"] == ti and f["job"]["alive"])
         return own, foreign
 
     def check_capacity(self, where):
@@ -365,7 +366,7 @@ class Engine:
 
     def uri_dead(self, uri):
         """True once the job process behind a token file's uri is gone"""
-        for f in self.foreign.values():
+        for f in self.foreign_jobs.values():
             if str(f["dir"] / "job") == uri:
                 return not f["alive"]
         for m in self.jobs.values():
@@ -705,12 +706,16 @@ def _deliver_now(eng, fn, what):
 
 
 def _foreign_acquire(eng, f, ti, w, twostep, scheduler_dies):
-    """Another scheduler process acquires w under file token ti for one of its jobs"""
+    """Another scheduler process acquires w under file token ti for its job f (one foreign
+    job can hold several tokens: same job directory, one token file per token)"""
     import fasteners
     from watchdog.events import FileCreatedEvent, FileModifiedEvent
 
     tok = eng.case["tokens"][ti]
-    if tok["kind"] != "file" or f in eng.foreign:
+    if tok["kind"] != "file" or (f, ti) in eng.foreign:
+        return
+    fjob = eng.foreign_jobs.get(f)
+    if fjob is not None and not fjob["alive"]:
         return
     d = eng.tokdir(ti)
     token = eng.tokens[ti]
@@ -721,11 +726,17 @@ def _foreign_acquire(eng, f, ti, w, twostep, scheduler_dies):
         if tok["total"] - used < w:
             eng.notes.add("foreign-acquire-refused")
             return
-        fj = eng.scratch / f"foreign{f}-r{eng.run_index}"
-        fj.mkdir(exist_ok=True)
-        child = subprocess.Popen(["sleep", "3600"], start_new_session=True)
-        eng.children.append(child)
-        (fj / "job.pid").write_text(json.dumps({"type": "local", "pid": child.pid}))
+        if fjob is None:
+            fj = eng.scratch / f"foreign{f}-r{eng.run_index}"
+            fj.mkdir(exist_ok=True)
+            child = subprocess.Popen(["sleep", "3600"], start_new_session=True)
+            eng.children.append(child)
+            (fj / "job.pid").write_text(json.dumps({"type": "local", "pid": child.pid}))
+            fjob = eng.foreign_jobs[f] = dict(dir=fj, child=child, alive=True, scheduler_dies=scheduler_dies, holdings=[])
+            first = True
+        else:
+            fj, child, first = fjob["dir"], fjob["child"], False
+            eng.notes.add("foreign-job-holds-two-tokens")
         path = d / f"foreign{f}.token"
         content = f"{w}\n{fj / 'job'}\n"
         if twostep:
@@ -735,17 +746,21 @@ def _foreign_acquire(eng, f, ti, w, twostep, scheduler_dies):
             _deliver_now(eng, lambda: token.on_modified(FileModifiedEvent(str(path))), f"modified:foreign{f}.token (empty)")
             eng.notes.add("half-written-token-file")
         path.write_text(content)
-    info = dict(path=path, w=w, ti=ti, child=child, dir=fj, alive=True, scheduler_dies=scheduler_dies)
-    eng.foreign[f] = info
+    info = dict(path=path, w=w, ti=ti, job=fjob, dir=fj)
+    eng.foreign[(f, ti)] = info
+    fjob["holdings"].append((f, ti))
     eng.notes.add("foreign-holding")
+    if not first:
+        return
 
     def job_ends():
         child.kill()
         child.wait()
-        info["alive"] = False
+        fjob["alive"] = False
         (fj / "job.pid").unlink()
-        if not scheduler_dies:
-            eng.add_event("foreign", f"release{f}", lambda: _foreign_release(eng, f))
+        if not fjob["scheduler_dies"]:
+            for key in list(fjob["holdings"]):
+                eng.add_event("foreign", f"release{key[0]}-{key[1]}", lambda k=key: _foreign_release(eng, k))
         else:
             eng.notes.add("foreign-scheduler-died")
 
@@ -755,7 +770,7 @@ def _foreign_acquire(eng, f, ti, w, twostep, scheduler_dies):
 def _foreign_release(eng, f):
     import fasteners
 
-    info = eng.foreign[f]
+    info = eng.foreign[f]  # f = (foreign job, token)
     with fasteners.InterProcessLock(eng.tokdir(info["ti"]) / "token.lock"):
         if info["path"].exists():
             info["path"].unlink()
@@ -942,7 +957,7 @@ def _final_checks(eng):
             continue
         if tok["kind"] == "file":
             left = sorted(p.name for p in eng.tokdir(ti).glob("*.token"))
-            live_foreign = sorted(f["path"].name for f in eng.foreign.values() if f["ti"] == ti and f["alive"])
+            live_foreign = sorted(f["path"].name for f in eng.foreign.values() if f["ti"] == ti and f["job"]["alive"])
             dead_left = [n for n in left if n not in live_foreign]
             if dead_left:
                 sig = "token-file-left"
